@@ -729,7 +729,7 @@ func summarise(res *report.Result, all []runResult, expected int) {
 			one := rr
 			one.Violations = []sim.Violation{v}
 			one.Opts.Steps = v.Step + 1
-			p := report.WriteReplay(fmt.Sprintf("sim_%s_%d.json", v.Prop, rr.Opts.Seed), one)
+			p := report.WriteReplay(fmt.Sprintf("sim_%s_%d.json", strings.ReplaceAll(v.Prop, "*", "any"), rr.Opts.Seed), one)
 			res.Violations = append(res.Violations, report.Violation{Property: v.Prop, Kind: "history", Key: v.Key, What: v.What, Replay: p, Concrete: true})
 		}
 	}
